@@ -191,6 +191,8 @@ pub mod boundary {
                     )
                 };
 
+                #[cfg(feature = "verif-hooks")]
+                crate::verif::slice_use(this.as_ptr() as usize, std::mem::size_of::<T::Transformed>(), "slice:List::eq#self");
                 #[allow(clippy::eq_op)]
                 return this == this;
             }
